@@ -101,6 +101,12 @@ def cases(tier, seed):
         d.update({"fields": ["temp", "density"], "layout": [scope.layouts(len(b), 'idrev')[-1] for b in m["levels"]], "payload": "coded", "time": times[3],
                   "seed": seed, "levelprefix": "Lev_"})
         out.append({"desc": d, "full": False, "maxlist": 2, "boxes_only": False, "devlevel": None, "w": 12, "levelprefix": True})
+    # 120 fields: three-digit component counts in the FAB headers and level headers, long min / max rows
+    m = scope.named_meshes(3)[1]
+    d = dict(m)
+    d.update(geos[3][3])
+    d.update({"fields": ["q%03d" % i for i in range(120)], "layout": [scope.layouts(2, 'idrev')[-1], None], "payload": "coded", "time": times[4], "seed": seed})
+    out.append({"desc": d, "full": False, "maxlist": 2, "boxes_only": True, "devlevel": 0, "w": 40, "wide120": True})
     # 27 + 20 boxes scattered over five / three files (more boxes than the small-array shortcuts of sorting routines)
     m = scope.many_box_mesh()
     d = dict(m)
